@@ -176,6 +176,13 @@ class SparseOracle:
         W = self.sel_matrix()
         d = W.shape[0]
         nz = np.where(np.any(W != 0, axis=1))[0]
+        amax = np.abs(W).max(axis=1)
+        if np.any((amax > 0) & (amax < 1e-150)):
+            # a row whose entries are below sqrt(smallest normal double): its norm underflows to 0 although the row is not
+            # zero.  "Non-zero row" is not decidable in floating point there (reached only by rows that receive no gradient
+            # and are shrunk geometrically for hundreds of steps); not judged, counted.
+            res.probe("checkpoints_with_underflowing_rows_not_judged")
+            return np.where(amax >= 1e-150)[0]
         sel = np.asarray(m.get_selection())
         if not np.array_equal(np.sort(sel), nz):
             res.violate("C06:selection", {"get_selection": sel.tolist(), "nonzero_rows": nz.tolist(), "where": where})
